@@ -30,11 +30,13 @@ def oraclize(qf: QlassF, element: Any, name="oracle"):
     """Transform a QlassF qf and an element to an oracle {f(x) = x == element}"""
     argt_name = type_repr(qf.args[0].ttype)
 
-    if qf.name == name:
-        qf.name = f"_{name}"
+    # the wrapped function must not be called like the oracle itself; rename only the copy that
+    # is handed to the translator, never the caller's object
+    fname = f"_{name}" if qf.name == name else qf.name
+    logic_fun = (fname,) + tuple(qf.to_logicfun()[1:])
 
-    fs = f"def {name}(v: {argt_name}) -> bool:\n   return {qf.name}(v) == {element}"
-    oracle = QlassF.from_function(fs, defs=[qf.to_logicfun()])
+    fs = f"def {name}(v: {argt_name}) -> bool:\n   return {fname}(v) == {element}"
+    oracle = QlassF.from_function(fs, defs=[logic_fun])
 
     if (
         len(oracle.expressions) == 1
